@@ -17,6 +17,11 @@ class Chi2Stub:
     def isf(alpha, dof):
         return sym.fn_uf("chi2.isf", alpha, dof)
 
+    @staticmethod
+    def ppf(p, dof):
+        """lower-tail quantile: in exact arithmetic ppf(p) = isf(1 - p) (in floats they differ for tiny tail probabilities: native replay with thresholds down to 1e-17)"""
+        return sym.fn_uf("chi2.isf", 1 - p, dof)
+
 
 def _isf(vc, alpha, dof):
     if vc.symbolic:
@@ -58,6 +63,10 @@ def _std(dim):
         vc.stub(ST + "@chi2", Chi2Stub)
         nu, S = _inputs(vc, dim)
         alpha = vc.real("alpha", 1e-6, 0.999999)
+        if not vc.symbolic and vc.bool("tiny_threshold"):
+            # valid but very small significance levels: the bound is still finite (isf(1e-17, 2) = 78.3) and a large innovation must be declared
+            alpha = 10.0 ** -vc.real("threshold_exp", 9, 17)
+            nu = nu * 4.0
         det = vc.new(MD + "StandardNis", threshold=alpha, metric=None)
         res = det(nu, S)
         q = _q(vc, nu, S)
@@ -265,3 +274,44 @@ def history_bounded(vc):
     for name in dets:
         vc.ensure(f"B-C17-history.{name}", bool(ok[name]))
     vc.ensure("B-C17-history.monotone", bool(mono))
+
+
+EST = "resonaate.estimation:"
+
+
+class _NS:
+    def __init__(self, **kw):
+        self.__dict__.update(kw)
+
+
+@obligation("C17", "det_config", ensures=["O-C17-config.parameters", "O-C17-config.factory"],
+            fns=[MD + "StandardNis.fromConfig", MD + "SlidingNis.fromConfig", MD + "FadingMemoryNis.fromConfig", EST + "maneuverDetectionFactory"], mode="R",
+            note="a detector built from its configuration uses the CONFIGURED significance, window size resp. fading factor (not a default), and the factory builds the detector kind the configuration names")
+def det_config(vc):
+    thr = vc.real("threshold", 1e-6, 0.999999)
+    w = vc.int("window", 1, 10)
+    delta = vc.real("delta", 1e-3, 0.999)
+    cfg = _NS(name="x", threshold=thr, window_size=w, delta=delta)
+    got = {}
+
+    def rec(kind):
+        class R:
+            def __new__(cls, *a, **k):
+                got[kind] = (a, k)
+                return kind
+        return R
+    f = (lambda spec: vc.fn(spec + ".fromConfig")) if vc.symbolic else (lambda spec: vc.fn(spec).fromConfig.__func__)
+    outs = [f(MD + "StandardNis")(rec("std"), cfg), f(MD + "SlidingNis")(rec("slide"), cfg), f(MD + "FadingMemoryNis")(rec("fade"), cfg)]
+    ok = outs == ["std", "slide", "fade"] and got["std"] == ((thr,), {}) and got["slide"][0] == (thr,) and got["slide"][1] == {"window_size": w} \
+        and got["fade"][0] == (thr,) and got["fade"][1] == {"delta": delta}
+    vc.ensure("O-C17-config.parameters", ok)
+    import resonaate.estimation as est
+    from resonaate.estimation.maneuver_detection import StandardNis, SlidingNis, FadingMemoryNis
+    names = {v: k for k, v in est._MANEUVER_DETECTION_MAP.items()}
+    built = []
+    for cls_ in (StandardNis, SlidingNis, FadingMemoryNis):
+        vc.install(EST + "@_MANEUVER_DETECTION_MAP", {names[cls_]: _NS(fromConfig=lambda c, cls_=cls_: (built.append((cls_.__name__, c)), cls_.__name__)[1])})
+        c = _NS(name=names[cls_], threshold=thr, window_size=w, delta=delta)
+        out = vc.fn(EST + "maneuverDetectionFactory")(c)
+        ok = ok and out == cls_.__name__ and built[-1] == (cls_.__name__, c)
+    vc.ensure("O-C17-config.factory", ok and vc.fn(EST + "maneuverDetectionFactory")(None) is None and set(names) == {StandardNis, SlidingNis, FadingMemoryNis})
